@@ -153,7 +153,9 @@ func (e *Engine) verifyUnit(u *FuncUnit) *UnitResult {
 		}
 		for _, pc := range ct.Points {
 			if (strings.HasPrefix(pc.Point, "before call ") || strings.HasPrefix(pc.Point, "after call ")) && !callPoints[pc.Point] {
-				if pc.C.Optional {
+				// a missing assert only means that one obligation is not generated (reported as such against the
+				// baseline); a missing assume or ghost binding changes what everything after it means
+				if pc.C.Optional || pc.C.Kind == "assert" {
 					continue
 				}
 				c.abort("%s @ %s: the function has no such call", pc.C.Kind, pc.Point)
